@@ -39,6 +39,10 @@ CHECKS = {
             "Bounded as C07; coverage in {1, 0.5}, length coverage 0.6, constraint families contiguous / non-contiguous / duplicate / overlapping.", "z3; spec encodings", "5/C10"),
     "C11": (TV, "node-mode LP vs LP of the explicit expansion built by the harness: equal certified optimum / equi-feasibility (z3); CrossHair on NodeExpandedDiGraph kernels with symbolic node sequences",
             "Bounded: DAGs <= 4 (5) nodes, digraphs <= 3 inner nodes; kernel sequences <= 4 over 3 names.", "z3; CrossHair; reference expansion written in the harness", "5/C11"),
+    "C17": (MC, "CrossHair over symbolic histories of reachability queries on fresh graph objects (cold/warm caches) against a BFS oracle; z3 maximality query for the edge antichain; bottleneck peeling evaluated",
+            "Bounded: DAGs <= 4 (5) nodes, digraphs <= 3 inner nodes, histories of 2 (3) queries over 5 addressed positions.", "CrossHair; z3; BFS oracle", "5/C17"),
+    "C18": (EX, "CrossHair enumerates symbolic histories of model constructions/solves that share the caller's argument objects; models run concretely (NoTracing); after every step caller data is compared with its pre-image and the result with a fresh-copy baseline",
+            "Exploration: histories of length 2 (3) over 8 (6) class variants x 4 sharing patterns on one DAG and one cyclic instance; plus every mutable default argument.", "CrossHair path enumeration; repr-based deep equality", "5/C18"),
     "C13": (MC, "CrossHair symbolic execution of the real search loops / abstract solve() over a symbolic outcome sequence (status per solver invocation, clock increments), plus status injection at the highspy boundary into the real classes",
             "Bounded: <= 5 solver invocations, 5-status alphabet; 'Confirmed over all paths' per harness with reachability twin.", "CrossHair/z3; k-model stubs validated by injected runs on the real classes", "5/C13"),
     "C14": (MC, "CrossHair symbolic execution of the real get_solution_walks/_reconstruct_eulerian_walk with a symbolic multiplicity per edge of enumerated universe graphs",
